@@ -116,3 +116,17 @@ pair!(stagepair_q_r_mut_then_imm, R_MUT, R_IMM, same_stage = false);
 pair!(stagepair_q_r_mut_then_mut, R_MUT, R_MUT, same_stage = false);
 pair!(stagepair_q_r_mut_then_other, R_MUT, R_OTHER, same_stage = true);
 pair!(stagepair_q_c_mut_then_r_mut, C_MUT, R_MUT, same_stage = true);
+
+// view lists of two views: an unrelated (absent from the other task) view in front of the conflicting one,
+// in registry order (X before Y) and in the written order of resources
+sys!(C_IMMX_MUTY, views = (&'a X, &'a mut Y), resources = ());
+sys!(C_OIMMX_MUTY, views = (Option<&'a X>, &'a mut Y), resources = ());
+sys!(C_MUTX_IMMY, views = (&'a mut X, &'a Y), resources = ());
+sys!(R_IMMX_MUTY, views = (), resources = (&'a X, &'a mut Y));
+pair!(stagepair_q_c_list_other_then_immx_muty, C_OTHER, C_IMMX_MUTY, same_stage = false);
+pair!(stagepair_q_c_list_other_then_oimmx_muty, C_OTHER, C_OIMMX_MUTY, same_stage = false);
+pair!(stagepair_q_c_list_immx_muty_then_other, C_IMMX_MUTY, C_OTHER, same_stage = false);
+pair!(stagepair_q_c_list_imm_then_mutx_immy, C_IMM, C_MUTX_IMMY, same_stage = false);
+pair!(stagepair_q_c_list_other_then_imm, C_OTHER, C_IMM, same_stage = true);
+pair!(stagepair_q_r_list_other_then_immx_muty, R_OTHER, R_IMMX_MUTY, same_stage = false);
+pair!(stagepair_q_r_list_imm_then_immx_muty, R_IMM, R_IMMX_MUTY, same_stage = true);
